@@ -386,6 +386,11 @@ class Run:
         self.stats['direct'] += 1
         x['done'] += 1
         idx = fr['exp'].index(x)
+        if self.queued_ran and sum(1 for t in self.op_hist.get(ev[0], []) if t is ev[2]) > 1:
+            # the identical object was assigned more than once in a window in which a queued callback ran: this call
+            # may just as well be the deferred delivery of the other assignment (order / old / type not decidable)
+            self.stats['direct_ambiguous_identical_object'] = self.stats.get('direct_ambiguous_identical_object', 0) + 1
+            return 'direct'
         if w['what'] == 'value':
             for earlier in fr['exp'][:idx]:
                 if earlier['need'] == 'must' and earlier['done'] == 0 and earlier['w']['live']:
